@@ -47,6 +47,12 @@ Definition atol2 : Q := 1 # 1000000000000000000000000000000.
 Definition cclose (a b : C) : bool :=
   Qle_bool (cnorm2 (csub a b)) (tol2 * (cnorm2 a + cnorm2 b) + atol2).
 
+(* purely relative versions, for quantities that carry the dimension of the data (spectra, their
+   square roots): the input magnitudes range over 2^-60..2^40, an absolute term would be vacuous *)
+Definition ccloser (a b : C) : bool :=
+  Qle_bool (cnorm2 (csub a b)) (tol2 * (cnorm2 a + cnorm2 b)).
+Definition closer (a b : Q) : bool := closeb_tol rtol_default 0 a b.
+
 (* the spectral matrix handed over: finite, M x M x F, non-zero diagonal that is real up to
    rounding (mlab.csd(x, x) computes conj(X)*X in complex arithmetic: |im| <= 1e-15 |re|) *)
 Definition spec_ok (M F : nat) (L : list (list (list cfl))) : bool :=
@@ -130,7 +136,7 @@ Definition check (c : case) : bool :=
       (* the library square roots meet their contract on the values the code applies them to *)
       all3 M M F (fun a b k => if (a <=? b)%nat then
                                  Qle_bool 0 (sq a b k) &&
-                                 closeb (sq a b k * sq a b k) (re (S a a k) * re (S b b k))
+                                 closer (sq a b k * sq a b k) (re (S a a k) * re (S b b k))
                                else true) &&
       all3 M M F (fun i j k => cclose (coherency_mat sq S i j k) (o i j k)) &&
       (* the lower triangle is the exact conjugate of the upper one *)
@@ -204,7 +210,7 @@ Definition check (c : case) : bool :=
       spec_ok M F Sl && spec_ok M F Sl' && shape1 M g &&
       let S := spec_of Sl in let S' := spec_of Sl' in let gq := map f2q g in
       all3 M M F (fun i j k =>
-        if (i <=? j)%nat then cclose (gained (fun a => nth a gq 0) S i j k) (S' i j k) else true)
+        if (i <=? j)%nat then ccloser (gained (fun a => nth a gq 0) S i j k) (S' i j k) else true)
   end.
 
 (* the Taylor polynomials at a few points against 17-digit values *)
